@@ -216,6 +216,11 @@ pub fn scenario(seed: u64, rep: &mut Report) {
 pub fn run(p: &Params) -> Report {
     let mut rep = Report::new("C17");
     if let Some(r) = &p.replay {
+        if super::sys::replay(r, &mut rep) {
+            return rep;
+        }
+    }
+    if let Some(r) = &p.replay {
         let seed: u64 = r["replay"]["scenario_seed"].as_str().unwrap().parse().unwrap();
         scenario(seed, &mut rep);
         return rep;
@@ -226,5 +231,7 @@ pub fn run(p: &Params) -> Report {
         crate::util::guarded(&mut rep, seed, |rep| scenario(seed, rep));
     }
     let _ = hx;
+    // full stack: votes arrive as PONGs of real exchanges with simulated peers
+    super::sys::run_votes(p, 0x5C17_0000, 1600, 100_000, &mut rep);
     rep
 }
